@@ -18,7 +18,23 @@ def load_checks():
 
 CHECKS = load_checks()
 
-NOT_APPLICABLE = {}
+_NB = ("not claimed: the technique applies (design in DESIGN.md §5) but no Coq model + checked tie was built in the time "
+       "available; ")
+NOT_APPLICABLE = {
+    "C18": _NB + "would reuse C17 (pools), C21/C16 (spill) and the RefSQL reference to compare memory-limited runs with unlimited ones",
+    "C19": _NB + "cancellation/drop behaviour of streams and background tasks needs a task-ownership model plus runtime observation",
+    "C20": _NB + "error propagation through exchanges would reuse the C15/C16/C10 channel models with an error-injection harness",
+    "C24": _NB + "parquet pruning/pushdown end-to-end would reuse C22 (pruning soundness) and C44 (schema adaptation)",
+    "C28": _NB + "verified monitor over executed sub-plans (like C53/C29) for orderings/partitionings was not built",
+    "C30": _NB + "verified monitor for batch schema conformance (like C53/C29) was not built",
+    "C31": _NB + "dynamic filter generations / bounds need a small-step model (like C15/C16) plus join/TopK harness",
+    "C32": _NB + "per-function specifications for ~50 scalar functions were not written",
+    "C35": _NB + "a builder was working on the proto enum-table translator (translators/rs_enummap2coq.py) when time ran out; files may be partial and are not enabled",
+    "C36": _NB + "see C35",
+    "C37": _NB + "substrait producer/consumer tables would use the same translator approach as C35",
+    "C45": _NB + "FFI wrappers would be compared with native components using the C07/C09/C01 models",
+    "C50": _NB + "unbounded-input progress needs prefix-monotonicity models of the streaming operators",
+}
 
 
 def manifest():
